@@ -465,9 +465,13 @@ func c15Sender(k *core.Case) {
 	var err error
 	p := core.Try(func() {
 		var le *eap.EAP
-		le, err = bridge.BuildEAP(e) // holds an arbitrary previous AT_MAC value
+		var bufs [][]byte
+		le, bufs, err = bridge.BuildEAPKeepingBuffers(e) // holds an arbitrary previous AT_MAC value
 		if err != nil {
 			return
+		}
+		if k.Index%2 == 0 {
+			defer func() { bufs = nil }()
 		}
 		if k.Index%7 == 1 {
 			_ = bridge.ObserveEAP(le) // the sender reads back what it has set before computing
@@ -480,6 +484,15 @@ func c15Sender(k *core.Case) {
 		ap := le.EapTypeData.(*eap.EapAkaPrime)
 		if err = ap.SetAttr(eap.AT_MAC, mac); err != nil {
 			return
+		}
+		if k.Index%2 == 1 {
+			// the caller wipes the buffers it handed to the setters (a RES is a secret) once the code is computed
+			for _, b := range bufs {
+				for i := range b {
+					b[i] ^= 0x5A
+				}
+			}
+			k.Count("callers_setter_buffers_wiped_before_sending", 1)
 		}
 		wire, err = le.Marshal()
 		if err != nil {
@@ -944,6 +957,6 @@ func c15(c *core.Ctx) {
 		k.Count("parallel_sessions_agree", 1)
 		k.Distinct(fmt.Sprintf("parallel|%d", len(ss)))
 	})
-	c.Require("received_packets_completed_then_authenticated", "colliding_packet_pairs", "receiver_read_all_attributes_before_computing", "sender_read_all_attributes_before_computing", "receiver_made_refused_setter_calls_first", "parallel_sessions_agree", "sender_receiver_agree", "reference_packets_accepted", "reference_packets_over_4k", "exhaustive_flip_packets", "flip_region_attr-padding", "flip_region_attr-reserved-or-bitlen",
+	c.Require("callers_setter_buffers_wiped_before_sending", "received_packets_completed_then_authenticated", "colliding_packet_pairs", "receiver_read_all_attributes_before_computing", "sender_read_all_attributes_before_computing", "receiver_made_refused_setter_calls_first", "parallel_sessions_agree", "sender_receiver_agree", "reference_packets_accepted", "reference_packets_over_4k", "exhaustive_flip_packets", "flip_region_attr-padding", "flip_region_attr-reserved-or-bitlen",
 		"flip_region_mac-value", "flip_region_eap-header", "flip_region_aka-header", "flip_region_attr-type", "flip_region_attr-length", "flip_region_attr-value")
 }
